@@ -76,9 +76,7 @@ func (f *Frame) freshResults(cc *ssa.CallCommon, st *State, prefix string) []Ter
 	for i := 0; i < res.Len(); i++ {
 		ts := f.ctx.freshLeaves(fmt.Sprintf("%s_r%d", prefix, i), res.At(i).Type())
 		st.assume(f.ctx, typeInv(res.At(i).Type(), ts))
-		if _, ok := res.At(i).Type().Underlying().(*types.Pointer); ok {
-			st.assume(f.ctx, Lt(ts[0], st.Alloc))
-		}
+		st.assume(f.ctx, refsBelow(res.At(i).Type(), ts, st.Alloc))
 		out = append(out, ts...)
 	}
 	return out
@@ -280,6 +278,9 @@ func (f *Frame) specCall(callee *ssa.Function, blk *Block, args [][]Term, st *St
 	if len(callee.Blocks) == 0 {
 		c.unsupported(f, "specification calls a function without body: "+callee.String())
 	}
+	if blk != nil {
+		c.used[blk] = true
+	}
 	if c.eng.isRecursive(callee) || (blk != nil && blk.Flags["opaque"]) {
 		return f.ufCall(callee, args, st)
 	}
@@ -470,6 +471,7 @@ func (f *Frame) quantifier(forall bool, cc *ssa.CallCommon, st *State) []Term {
 func (f *Frame) applyContract(in ssa.Instruction, cc *ssa.CallCommon, callee *ssa.Function, blk *Block, args [][]Term, st *State) []Term {
 	c := f.ctx
 	pos := in.Pos()
+	c.used[blk] = true
 	for _, cl := range blk.Pre {
 		t := c.evalSpecFn(cl.Fn, args, st, snapOf(st), f)[0]
 		t = c.define("pre", t)
@@ -832,40 +834,26 @@ func (f *Frame) builtinAppend(in ssa.Instruction, cc *ssa.CallCommon, args [][]T
 	for k := range lay {
 		key := arrKey(el, k)
 		h := c.heapGet(st, key, c.heapSort(key, lay[k]))
-		srcOld := Select(h, s[0])
-		// the new content array of the result backing store
-		na := c.fresh("apparr", ArrSort(SInt, lay[k].Sort))
-		c.n++
-		j := Term{fmt.Sprintf("j!%d", c.n), SInt}
-		// prefix: old elements of s; then elements of t
-		prefixSrc := Select(srcOld, Add(s[1], j))
-		var tailSrc Term
-		if fromString {
-			tailSrc = app(SInt, "sat", strT, Sub(j, s[2]))
-		} else {
-			tailSrc = Select(Select(h, tBase), Add(tOff, Sub(j, s[2])))
+		srcOld := c.define("appsrc", Select(h, s[0]))
+		asort := ArrSort(SInt, lay[k].Sort)
+		tail := func(j Term) Term { // element number j-len(s) of t
+			if fromString {
+				return app(SInt, "sat", strT, Sub(j, s[2]))
+			}
+			return Select(Select(h, tBase), Add(tOff, Sub(j, s[2])))
 		}
-		dst := Select(na, Add(resOff, j))
-		c.assert(Forall([]Term{j}, Implies(And(Ge(j, IntLit(0)), Lt(j, s[2])), Eq(dst, prefixSrc)), []Term{dst}))
-		c.assert(Forall([]Term{j}, Implies(And(Ge(j, s[2]), Lt(j, newLen)), Eq(dst, tailSrc)), []Term{dst}))
-		// in place: everything outside the appended window is unchanged
+		// in place: a complete definition of the new contents of the old backing array
+		naFit := c.fresh("appfit", asort)
 		c.n++
 		i := Term{fmt.Sprintf("i!%d", c.n), SInt}
-		c.assert(Implies(fits, Forall([]Term{i}, Implies(Or(Lt(i, Add(s[1], s[2])), Ge(i, Add(s[1], newLen))), Eq(Select(na, i), Select(srcOld, i))), []Term{Select(na, i)})))
-		// single-element appends get explicit instances (keeps common cases quantifier-free)
-		if one, ok := tLen.intConst(); ok && one.IsInt64() && one.Int64() <= 4 {
-			for d := int64(0); d < one.Int64(); d++ {
-				jj := Add(s[2], IntLit(d))
-				var src Term
-				if fromString {
-					src = app(SInt, "sat", strT, IntLit(d))
-				} else {
-					src = Select(Select(h, tBase), Add(tOff, IntLit(d)))
-				}
-				c.assert(Eq(Select(na, Add(resOff, jj)), src))
-			}
-		}
-		st.Heap[key] = c.define("heap", Store(h, resBase, na))
+		inWin := And(Ge(i, Add(s[1], s[2])), Lt(i, Add(s[1], newLen)))
+		c.assert(Forall([]Term{i}, Eq(Select(naFit, i), Ite(inWin, tail(Sub(i, s[1])), Select(srcOld, i))), []Term{Select(naFit, i)}))
+		// reallocation: old elements then the appended ones, from index 0
+		naNew := c.fresh("appnew", asort)
+		c.n++
+		j := Term{fmt.Sprintf("j!%d", c.n), SInt}
+		c.assert(Forall([]Term{j}, Implies(And(Ge(j, IntLit(0)), Lt(j, newLen)), Eq(Select(naNew, j), Ite(Lt(j, s[2]), Select(srcOld, Add(s[1], j)), tail(j)))), []Term{Select(naNew, j)}))
+		st.Heap[key] = c.define("heap", Ite(fits, Store(h, s[0], naFit), Store(h, fresh, naNew)))
 	}
 	return []Term{resBase, resOff, newLen, resCap}
 }
